@@ -50,7 +50,7 @@ DONE = {
          "Exploration: thousands of generated boxes (aspect to 2^4 quick / 2^6 thorough, offsets to 2^20 widths), grids of 1..16/40 cells per axis or one cell, particle sets n = 1..400/600 (uniform, clustered, exact lattices, thin slabs), k in {0, 1, n-1, any}; every particle's list compared rank by rank; Welzl minimality for n <= 14, containment for Welzl (n <= 60), Epos6 and Epos6 spheres-of-spheres.",
          "Trusted: brute-force oracles of the harness. Welzl is not run on exact lattices (exactly collinear / co-spherical support sets are degenerate for an exact solver without perturbation); Welzl::bounding_sphere_of_spheres is unimplemented!() by design.", "5 C20"),
  "C05": ("property-based testing on degenerate-weighted generated inputs in release and debug-assertion builds: totality (no panic), finiteness, and the unchanged oracles of C01-C04 on the same results; hook counter proves the exact predicate ran",
-         "Exploration: 12 000 (quick) / 400 000 (thorough) generated degenerate inputs per build profile (exact / perturbed lattices, wall / edge / corner points, co-spherical, collinear, coplanar, dyadic, shared-coordinate, clusters to 1e-12, n = 1, 2; plus lattices in far-from-origin boxes perturbed at the level of the coordinate rounding), masks mixed, all dimensionalities, periodic or not.",
+         "Exploration: 12 000 (quick) / 400 000 (thorough) generated degenerate inputs per build profile, thorough also a libFuzzer campaign (fz_tess, 16 x 100 000 executions) (exact / perturbed lattices, wall / edge / corner points, co-spherical, collinear, coplanar, dyadic, shared-coordinate, clusters to 1e-12, n = 1, 2; plus lattices in far-from-origin boxes perturbed at the level of the coordinate rounding), masks mixed, all dimensionalities, periodic or not.",
          "Trusted: the oracles of C01-C04 with their stated exemptions (ill-conditioned cells, unresolvable arrangements). Termination is observed through a watchdog (exit 2 = inconclusive, never a violation).", "5 C05"),
  "C14": ("compile-time check of a separate downstream crate + property-based differential testing of the recorded decomposition (signed moments up to degree 2, face triangles) against the brute-force reference cell; data delivery under generated masks; default and sequential builds of the library",
          "Exploration: 3 000 (quick) / 100 000 (thorough) generated inputs x masks per build (rayon and sequential), all dimensionalities, periodic or not, 3D also through with_faces(); every constructed cell's tetrahedra and every face's base triangles are recorded by trait implementations living in /verif/downstream.",
@@ -62,7 +62,7 @@ DONE = {
          "Exploration with an exhaustively enumerated sub-space: 1500 (quick) / 60 000 (thorough) degenerate-weighted inputs (exact path taken in about half of them) each with 8 integer 5-tuples; all 8^5 (quick) / 27^5 (thorough) 5-tuples of a small grid at two offsets; tessellation dumps, exact-call counters and predicate signs compared across all four backends and with the harness' determinant.",
          "Trusted: the harness' Bareiss determinant (C10). rug cannot be built offline and is not compared.", "5 C11"),
  "C15": ("property-based testing with validity predicates in both directions on every with_faces() cell + stateful generation (operation sequences over with_faces / discard_faces / clone / integrals / accessors with a one-bit model) + rejection of 1D/2D; release and debug-assertion builds",
-         "Exploration: 3000 (quick) / 120 000 (thorough) generated inputs per build profile (90% 3D from all families x masks, 10% 1D/2D), about 60 000 cells / 550 000 polygons / 10^6 vertices per quick run; geometric predicates on well-conditioned cells, combinatorial ones (incidence, edge sharing, Euler, ordering, accessor agreement, round trip) on all.",
+         "Exploration: 3000 (quick) / 120 000 (thorough) generated inputs per build profile (90% 3D from all families x masks, 10% 1D/2D), about 60 000 cells / 550 000 polygons / 10^6 vertices per quick run; geometric predicates on well-conditioned cells, combinatorial ones (incidence, edge sharing, Euler, ordering, accessor agreement, round trip) on all. Thorough tier additionally replays the small cases of corpus/C15-miri/ through the same oracle under Miri (undefined-behaviour detection for the transmute / unwrap_unchecked paths).",
          "Trusted: nothing beyond the harness. The type-state invariant behind the unchecked accessors is exercised on every public transition sequence but cannot be shown for code paths that do not exist yet (DESIGN.md section 6).", "5 C15, 6"),
 }
 NOT_YET = "check under construction (work in progress; see DESIGN.md section 5)"
